@@ -35,8 +35,14 @@ func BuildUnit(P *Program, key string, profile string, prop string) (*Unit, erro
 	e := &enc{P: P, S: newSorts(), famSort: map[string]string{}, profile: profile, prop: prop, notes: map[string]bool{}, trusted: map[string]bool{},
 		inlined: map[string]bool{}, callees: map[string]bool{}, unitName: key, names: map[string]int{}, globals: map[string]Term{},
 		funcRefs: map[string]Term{}, fnByRef: map[string]interface{}{}, logicals: map[string]TV{}, closByRef: map[string]*closureVal{},
-		inlineBusy: map[*ssa.Function]bool{}, rootFC: fc, ghostEntry: map[string]Term{}, ghostTy: map[string]types.Type{}}
+		inlineBusy: map[*ssa.Function]bool{}, rootFC: fc, ghostEntry: map[string]Term{}, ghostFns: map[string]bool{}, ghostTy: map[string]types.Type{}}
 	e.safetyProps = fc.Safety
+	for _, lc := range fc.Loops {
+		for _, gf := range lc.GhostFns {
+			e.S.extraDecls = append(e.S.extraDecls, fmt.Sprintf("(declare-fun %s (Int) Int)", q("gf:"+gf.Name)))
+			e.ghostFns[gf.Name] = true
+		}
+	}
 	e.inlineBusy[fn] = true
 	entryB := &baseNode{kind: baseEntry, memo: map[string]Term{}}
 	e.entryB = entryB
@@ -98,6 +104,7 @@ func BuildUnit(P *Program, key string, profile string, prop string) (*Unit, erro
 		}
 		e.logicals[ld.Name] = tv
 	}
+	pre.hyp = true
 	for _, c := range fc.Requires {
 		if c.Profile != "" && c.Profile != profile {
 			continue
@@ -124,6 +131,7 @@ func BuildUnit(P *Program, key string, profile string, prop string) (*Unit, erro
 			e.writeRefs = append(e.writeRefs, refOf(tv)...)
 		}
 	}
+	pre.hyp = false
 	x.run(args, free, st, "true")
 
 	// ----- exit -----
@@ -158,20 +166,44 @@ func BuildUnit(P *Program, key string, profile string, prop string) (*Unit, erro
 				post.vars["result"] = TV{t, res.At(i).Type()}
 			}
 		}
+		// postconditions: one obligation per clause and per return site (the
+		// merged exit state is kept for the frame obligations only)
 		for k, c := range fc.Ensures {
 			if c.Profile != "" && c.Profile != profile {
-				continue
-			}
-			tv, err := post.eval(c.Expr)
-			if err != nil {
-				e.bindingError(key, c, err)
 				continue
 			}
 			lbl := c.Label
 			if lbl == "" {
 				lbl = fmt.Sprint(k)
 			}
-			e.oblig("post", "post:"+lbl, c.Props, exitReach, tv.T, fmt.Sprintf("%s:%d", shortFile(c.File), c.Line), c.Text)
+			for ri, r := range x.rets {
+				pr := x.envAt(r.st, nil, nil, true)
+				pr.pkg = e.pkgOf(fc)
+				for i := 0; i < res.Len(); i++ {
+					name := ""
+					if i < len(fc.Returns) {
+						name = fc.Returns[i]
+					} else if res.At(i).Name() != "" {
+						name = res.At(i).Name()
+					}
+					if name != "" {
+						pr.vars[name] = TV{r.vals[i], res.At(i).Type()}
+					}
+					if res.Len() == 1 {
+						pr.vars["result"] = TV{r.vals[i], res.At(i).Type()}
+					}
+				}
+				tv, err := pr.eval(c.Expr)
+				if err != nil {
+					e.bindingError(key, c, err)
+					break
+				}
+				name := "post:" + lbl
+				if len(x.rets) > 1 {
+					name = fmt.Sprintf("post:%s@r%d", lbl, ri+1)
+				}
+				e.oblig("post", name, c.Props, r.reach, tv.T, fmt.Sprintf("%s:%d", shortFile(c.File), c.Line), c.Text)
+			}
 		}
 		// frame
 		if mc := fc.Mod(profile); mc != nil {
